@@ -38,15 +38,19 @@ META = {
     "lock; C10_discipline — LockDiscipline holds for the generated Job.run and Job.run_async (evaluated on the current "
     "source); C10_once (+_async) — any number of submitters in any order, no rerun, body succeeds, no crash: the body is "
     "entered exactly once and every submitter returns the same complete good result; C10_no_partial — a load never yields "
-    "a partial result.  C10_once is stated for serialized calls (withLock-shaped programs); the reduction from the "
-    "fine-grained interleaving to the serialized one rests on the first two theorems and is not mechanised.",
+    "a partial result.  C10_once_interleaved (+_async): the reduction from the single-action interleaving semantics "
+    "to serial calls is mechanised (JobProto/Reduction.lean: mover lemma C10_mover + prophecy invariant + small-step = "
+    "big-step C10_small_big) — for any number of processes and ANY interleaving (no deaths, no rerun, body succeeds, any "
+    "legal initial result file) every ended submitter has returned the complete good result and the body was entered "
+    "exactly once (never if the good result was cached); the finite premise InitGood is evaluated on the regenerated "
+    "skeletons.",
     "note": "Trusted: Lean kernel; AST skeleton extractor; hand-written action semantics and interleaving semantics "
     "(JobProto/Conc.lean); lock contract of filelock 3.32.6 SoftFileLock (sampled by the replays).",
     "rule": "case = (number of submitters, result pre-existing?, gate set, sequence of start/release/acquired events) or an "
     "ungated race (k, worker, task); distinct by canonical JSON; non-trivial = >= 2 submitters",
     "assumptions": [
         "filelock.SoftFileLock 3.32.6: atomic exclusive create; a live holder's marker is never broken (no lifetime configured)",
-        "the fine-grained interleaving can be serialized (Lipton reduction) — argued from C10_mutex + C10_access_locked, not mechanised",
+        "C10_once_interleaved is stated without process deaths (deaths are covered by C10_mutex and by C12)",
     ],
     "trusted": ["hand-written interleaving semantics (JobProto/Conc.lean) and harness/extractors/job_skeleton.py"],
 }
@@ -63,6 +67,13 @@ OBLIGATIONS = [
         "C10_once_async",
         "C10_no_partial",
         "C10_small_big",
+        "C10_mover",
+        "C10_once_interleaved",
+        "C10_once_interleaved_async",
+        "CheckC10.initGood_run",
+        "CheckC10.initGood_async",
+        "red_step",
+        "once_interleaved",
         "CheckC10.callGood_run",
         "CheckC10.callGood_async",
         "CheckC10.discipline_run",
